@@ -109,11 +109,42 @@ func raceOnlyScenarios() []scenario {
 		fmt.Fprintf(&b, "2020-01-%02d \"t\"\nEquity:Opening Assets:Bank:Acc%03d %d.%02d CHF\n\n", 1+i%28, i, 1+(i*7919)%100000, i%100)
 	}
 	files := map[string]string{"j.knut": b.String()}
+	// infer on a target of 700 transactions with different descriptions
+	words := []string{"migros", "coop", "sbb", "rent", "salary", "kiosk", "pharmacy"}
+	var tr, tg strings.Builder
+	tr.WriteString("2020-01-01 open Assets:Bank\n")
+	for i, w := range words {
+		for k := 0; k < 3; k++ {
+			fmt.Fprintf(&tr, "2020-01-%02d \"%s store %d\"\nAssets:Bank Expenses:%s %d CHF\n\n", 2+i, w, k, strings.ToUpper(w[:1])+w[1:], 10+k)
+		}
+	}
+	for i := 0; i < 700; i++ {
+		fmt.Fprintf(&tg, "2020-02-%02d \"%s purchase %d\"\nAssets:Bank Expenses:TBD %d CHF\n\n", 1+i%28, words[i%len(words)], i, 5+i%50)
+	}
+	inferFiles := map[string]string{"train.knut": tr.String(), "target.knut": tg.String()}
+	// one file of 5000 bookings (more directives than any batch size a loader might use)
+	var big strings.Builder
+	big.WriteString("2019-12-31 open Assets:Bank\n2019-12-31 open Expenses:Food\n2019-12-31 open Equity:Opening\n2019-12-31 price USD 0.9 CHF\n")
+	for i := 0; i < 5000; i++ {
+		fmt.Fprintf(&big, "2020-%02d-%02d \"t%05d\"\nAssets:Bank Expenses:Food %d.%02d USD\n\n", 1+(i/400)%12, 1+i%28, i, 1+i, i%100)
+	}
+	bigFiles := map[string]string{"root.knut": "include \"big.knut\"\n", "big.knut": big.String()}
 	return []scenario{
+		{Name: "big-file-5000-transcode", Files: bigFiles, Args: []string{"transcode", "-v", "CHF", "root.knut"}},
+		{Name: "big-infer-700", Files: inferFiles, Args: []string{"infer", "-t", "train.knut", "target.knut"}},
 		{Name: "big-table-balance", Files: files, Args: []string{"balance", "--color=false", "--digits", "2", "j.knut"}},
 		{Name: "big-table-balance-days", Files: files, Args: []string{"balance", "--color=false", "--diff", "--days", "-k", "j.knut"}},
 		{Name: "big-table-weights", Files: files, Args: []string{"portfolio", "weights", "-v", "CHF", "--color=false", "j.knut"}},
 	}
+}
+
+func raceOnlyScenario(name string) scenario {
+	for _, s := range raceOnlyScenarios() {
+		if s.Name == name {
+			return s
+		}
+	}
+	panic("no race-only scenario " + name)
 }
 
 var reFrame = regexp.MustCompile(`(?m)^  (github\.com/sboehler/knut/[^\s(]+)`)
